@@ -352,6 +352,19 @@ func TestVerifC20Valid(t *testing.T) {
 		}
 		st.Eval()
 		total++
+		// interference: one case in three first formats an unrelated, mostly invalid source (a mutant of a
+		// small program; its outcome is judged by the `invalid` unit, not here).  Whether the valid source
+		// below is formatted correctly must not depend on what the parser was fed before.
+		if rapid.IntRange(0, 2).Draw(t, "interfere") == 0 {
+			g2 := newGen(t, true, known)
+			g2.program(2)
+			g2.source()
+			bad, _, _ := mutate(t, g2.pieces)
+			if bad != "" {
+				runFormat(bad)
+				st.Class("preceded-by-mutant")
+			}
+		}
 		p := runParseNorm(src)
 		switch {
 		case p.hung:
